@@ -39,6 +39,7 @@ Definition parse_uwrap (x : sexp) : option uwrap :=
     else if str_eqb s (lit "full") then Some UWFull
     else if str_eqb s (lit "empty") then Some UWEmpty
     else if str_eqb s (lit "safedet") then Some UWSafeDet
+    else if str_eqb s (lit "as") then Some UWAs
     else None
   | _ => None
   end.
@@ -88,6 +89,9 @@ Fixpoint parse_recipe (x : sexp) {struct x} : option recipe :=
       else if opis k "int" then do z <- get_Z a; Some (FInt vb z)
       else if opis k "safeint" then do z <- get_Z a; Some (FSafeInt vb z)
       else if opis k "err" then do r <- parse_recipe a; Some (FErr vb r)
+      else if opis k "xstr" then do s <- get_atom a; Some (FXStr s)
+      else if opis k "xsafestr" then do s <- get_atom a; Some (FXSafeStr s)
+      else if opis k "xint" then do z <- get_Z a; Some (FXInt z)
       else None
     | _ => None
     end in
